@@ -35,6 +35,11 @@ RULE = ("random trees (0-14 entries; one in twenty with 100-400 entries in one g
         "prior histories from earlier create runs (root, nested, -sf, -n, patterns), then create; every scenario runs on the real tool and on the "
         "extracted model; oracle: records == os-independent walk of the abstract tree filtered by pathspec on root-relative paths, path form, "
         "digests recomputed. A scenario is non-trivial when at least one create wrote a generation with records.")
-check, replay = make("C02", oracles.oracle_c02, scenario, 60, 1500, RULE,
+# recorded inputs that run first on every run: names that contain a line feed (file, folder, folder with a nested history
+# is left out on purpose -- see DESIGN 10.4)
+CORPUS = [{"tree": {"x\ny.txt": {"f": "414141"}, "d\ne": {"d": {"f.bin": {"f": "42"}, "g\n": {"f": "43"}}}, "z": {"f": ""}},
+           "steps": [{"op": "create", "fmts": ["md5"]}, {"op": "verify"}, {"op": "create", "fmts": ["sha1", "c4"]}, {"op": "diff"}, {"op": "verifydh"},
+                     {"op": "info"}]}]      # (info -sf prints the name: the line-wise reading of the output would split it)
+check, replay = make("C02", oracles.oracle_c02, scenario, 60, 1500, RULE, corpus=CORPUS,
                      corpus_defects=[defects.d05_c10_line_separator_in_name, defects.d08_c12_sf_folder_ignores_patterns],
                      nontrivial=lambda scn, obs: any(g.get("records") for o in obs for g in o.get("written", [])))
